@@ -68,6 +68,9 @@ impl<'a> Fold<TextRange> for Scan<'a> {
 
 fuzz_target!(|data: &[u8]| {
     let Some(inp) = common::decode(data) else { return };
+    if common::too_deep(&inp.text) {
+        return;
+    }
     let src = inp.text.as_str();
     match parse(src, inp.mode, "<fuzz>") {
         Err(e) => {
